@@ -28,7 +28,7 @@ pub fn jobs(ctx: &Ctx) -> Vec<Job> {
     let caps = &ctx.caps;
     let mut jobs = Vec::new();
     let mut k = 0u64;
-    let per_cell = ctx.tier.pick(3, ctx.scale(14));
+    let per_cell = ctx.tier.pick(3, ctx.scale(50));
     for v in 1..=40usize {
         for level in 0..4usize {
             for p in 0..per_cell {
@@ -55,7 +55,7 @@ pub fn jobs(ctx: &Ctx) -> Vec<Job> {
         }
     }
     let mut rng = Rng::new(ctx.seed ^ 0xc11);
-    for _ in 0..ctx.tier.pick(500, ctx.scale(12_000)) {
+    for _ in 0..ctx.tier.pick(800, ctx.scale(40_000)) {
         k += 1;
         let class = rng.below(3);
         let level = rng.below(4);
@@ -63,7 +63,7 @@ pub fn jobs(ctx: &Ctx) -> Vec<Job> {
     }
     // versions 1-3 are cheap (a 21x21 candidate costs microseconds) and their dark ratio moves in
     // coarse steps (1/441), so they are where the dark-ratio bands and ties are actually hit
-    for _ in 0..ctx.tier.pick(12_000, ctx.scale(60_000)) {
+    for _ in 0..ctx.tier.pick(12_000, ctx.scale(300_000)) {
         k += 1;
         let class = rng.below(3);
         let level = rng.below(4);
@@ -300,7 +300,7 @@ pub fn run(ctx: &Ctx) -> Report {
     let st = pool::run(&jobs, ctx.remaining(), |st, job, i| observe(ctx, st, job, i));
     let mut rep = Report::new(
         st,
-        "jobs = all 160 (version, level) cells x payloads {capacity-filling, empty, constant, random} + random small inputs (v<=10, automatic version/mode) + 12,000 (thorough 60,000) tiny inputs for versions 1-3 (coarse dark-ratio steps: the bands of the dark-ratio term and ties are hit there) + the three witness payloads of KF-C11-1 + forced-mask builds; each automatic build is run with the candidate recorder hook armed: the eight recorded candidates must be eight distinct masks over identical placed codewords (checked by un-masking with the ISO conditions) and must equal the forced-mask builds seen through the public API; an independent scan computes the documented penalty (40 per 1011101 window, N-2 per run >=5 inside the encoding region over rows and columns of the candidate, 3 per 2x2 block, 10 per 5% dark-ratio step; both readings of an exact 5% boundary accepted) and the emitted mask must be in the argmin; ties and order-equivalent ranking scores are not alarms; a miss is classified against the predicate of known finding KF-C11-1 (emitted mask in argmin when column terms are frozen at the un-masked placement); distinct key = (options, len, payload hash); every automatic build non-trivial",
+        "jobs = all 160 (version, level) cells x payloads {capacity-filling, empty, constant, random} + random small inputs (v<=10, automatic version/mode) + 12,000 (thorough 300,000) tiny inputs for versions 1-3 (coarse dark-ratio steps: the bands of the dark-ratio term and ties are hit there) + the three witness payloads of KF-C11-1 + forced-mask builds; each automatic build is run with the candidate recorder hook armed: the eight recorded candidates must be eight distinct masks over identical placed codewords (checked by un-masking with the ISO conditions) and must equal the forced-mask builds seen through the public API; an independent scan computes the documented penalty (40 per 1011101 window, N-2 per run >=5 inside the encoding region over rows and columns of the candidate, 3 per 2x2 block, 10 per 5% dark-ratio step; both readings of an exact 5% boundary accepted) and the emitted mask must be in the argmin; ties and order-equivalent ranking scores are not alarms; a miss is classified against the predicate of known finding KF-C11-1 (emitted mask in argmin when column terms are frozen at the un-masked placement); distinct key = (options, len, payload hash); every automatic build non-trivial",
     );
     rep.expected_sets = vec![("version_level", 160), ("emitted_masks", 8), ("dark_penalty_values", 10)];
     rep.required_sets = vec![("version_level", 160)];
